@@ -12,35 +12,37 @@ Tr == ndJsonDeserialize(IOEnv.TRACE_FILE)
 VARIABLES l, w
 
 Bad(e, why) == PrintT("BAD " \o ToString(e.id) \o " " \o why)
-M == 2^w
 LoggedFile(e) == IF "m" \in DOMAIN e.file THEN Missing ELSE [c |-> e.file.c]
 
+\* Counts are carried as decimal digit strings (e.ret.vd, e.vd): widths up to 64 bits are driven.
 \* expected [file, mem, ret] of the call
 SpecStep(e) ==
-  CASE e.op = "init" -> [file |-> LoggedFile(e), mem |-> 0, ret |-> "none"]
+  CASE e.op = "init" -> [file |-> LoggedFile(e), mem |-> <<48>>, ret |-> "none"]
     [] e.op = "restart" -> [file |-> IF file = Missing THEN Content(0) ELSE file, mem |-> mem, ret |-> "none"]
     [] e.op = "next_file" ->
-         LET r == ReadM(file, M)
-         IN IF r.ok THEN [file |-> [c |-> Overwrite(file.c, Digits((r.v + 1) % M) \o <<NL>>)], mem |-> mem,
-                          ret |-> [v |-> r.v]]
+         LET r == ReadD(file, w)
+         IN IF r.ok THEN [file |-> [c |-> Overwrite(file.c, NextD(r.d, w) \o <<NL>>)], mem |-> mem,
+                          ret |-> [vd |-> r.d]]
             ELSE [file |-> file, mem |-> mem, ret |-> [exc |-> r.err]]
     [] e.op = "current" ->
-         LET r == ReadM(file, M)
-         IN [file |-> file, mem |-> mem, ret |-> IF r.ok THEN [v |-> r.v] ELSE [exc |-> r.err]]
-    [] e.op = "next_mem" -> [file |-> file, mem |-> (mem + 1) % M, ret |-> [v |-> mem]]
+         LET r == ReadD(file, w)
+         IN [file |-> file, mem |-> mem, ret |-> IF r.ok THEN [vd |-> r.d] ELSE [exc |-> r.err]]
+    [] e.op = "next_mem" -> [file |-> file, mem |-> NextD(mem, w), ret |-> [vd |-> mem]]
     [] e.op = "delete" -> [file |-> Missing, mem |-> mem, ret |-> "none"]
     [] e.op = "scribble" -> [file |-> LoggedFile(e), mem |-> mem, ret |-> "none"]
+    \* the in-memory provider's public count attribute is assigned (a count below 2^width)
+    [] e.op = "set_mem" -> [file |-> file, mem |-> e.vd, ret |-> "none"]
     \* the public max_bit_width setter (driven only while the stored counts fit the new width): nothing else changes,
     \* all later calls count modulo the new 2^width
     [] e.op = "set_width" -> [file |-> file, mem |-> mem, ret |-> "none"]
 
-TraceInit == l = 1 /\ w = 1 /\ file = Missing /\ mem = 0 /\ prev = -1 /\ prevMem = -1 /\ ev = [a |-> "trace"]
+TraceInit == l = 1 /\ w = 1 /\ file = Missing /\ mem = <<48>> /\ prev = -1 /\ prevMem = -1 /\ ev = [a |-> "trace"]
 
 TraceNext ==
   /\ l <= Len(Tr)
   /\ LET e == Tr[l] IN
        /\ w' = IF e.op \in {"init", "set_width"} THEN e.w ELSE w
-       /\ IF e.op = "init" THEN /\ file' = LoggedFile(e) /\ mem' = 0
+       /\ IF e.op = "init" THEN /\ file' = LoggedFile(e) /\ mem' = <<48>>
           ELSE LET x == SpecStep(e)
                    okRet  == x.ret = e.ret
                    okFile == x.file = LoggedFile(e)
@@ -49,7 +51,7 @@ TraceNext ==
                   /\ (IF okFile THEN TRUE ELSE Bad(e, "file"))
                   /\ (IF okPsc THEN TRUE ELSE Bad(e, "seqcount-range"))
                   /\ file' = LoggedFile(e)
-                  /\ mem' = IF e.op = "next_mem" /\ "v" \in DOMAIN e.ret THEN (e.ret.v + 1) % M ELSE x.mem
+                  /\ mem' = IF e.op = "next_mem" /\ "vd" \in DOMAIN e.ret THEN NextD(e.ret.vd, w) ELSE x.mem
   /\ (l = Len(Tr) => PrintT("DONE " \o ToString(l)))
   /\ l' = l + 1
   /\ UNCHANGED <<prev, prevMem, ev>>
